@@ -207,6 +207,28 @@ func c03Tables(run *PropRun) {
 		g2 := run.AddObligation(fmt.Sprintf("keytable[%s]/nonempty-keys", te.Name), "table", BoolT(!hasEmpty), "the table built by prepareKeys has no empty key sequence (precondition of parseFunctionKey: a match consumes at least one byte)")
 		g2.ReplayGo = replayKeyTable(te.Name, `for a, k := range s.keycodes { if a == "" || k == nil { fail("empty sequence or nil entry in the key table"); return } }`)
 		nOb++
+		// (1c) a single DEL byte is Backspace2 on every terminal, alone and between two letters (through the real driver)
+		{
+			bs2 := e.constInt(modPath, "KeyBackspace2")
+			krune := e.constInt(modPath, "KeyRune")
+			evs1, why1 := decodeDriver(db, fs, tp, "\x7f")
+			evs3, why3 := decodeDriver(db, fs, tp, "a\x7fb")
+			ok := why1 == "" && why3 == "" && len(evs1) == 1 && evs1[0].Key == bs2 && evs1[0].Mod == 0 &&
+				len(evs3) == 3 && evs3[0].Key == krune && evs3[1].Key == bs2 && evs3[1].Mod == 0 && evs3[2].Key == krune
+			g := run.AddObligation(fmt.Sprintf("keytable[%s]/del-is-backspace2", te.Name), "table", BoolT(ok),
+				fmt.Sprintf("the input driver reports a single DEL byte as KeyBackspace2 without modifiers (alone: %v %s; in \"a\\x7fb\": %v %s)", evs1, why1, evs3, why3))
+			g.ReplayGo = replayKeyTableImports(te.Name, []string{"bytes"}, `
+	s.cells.Resize(80, 24)
+	for _, in := range []string{"\x7f", "a\x7fb"} {
+		evs := s.collectEventsFromInput(bytes.NewBufferString(in), false)
+		n := 0
+		for _, ev := range evs {
+			if k, ok := ev.(*EventKey); ok && k.Key() == KeyBackspace2 && k.Modifiers() == ModNone { n++ }
+		}
+		if n != 1 || len(evs) != len(in) { fail("input %q produced %d events, %d of them an unmodified KeyBackspace2", in, len(evs), n); return }
+	}`)
+			nOb++
+		}
 		// (2) every key capability of the description is in the table with a key the description assigns to it
 		for i := 0; i < db.TI.NumFields(); i++ {
 			fname := db.TI.Field(i).Name()
@@ -490,6 +512,73 @@ func replayKeyTable(term, body string) string {
 	s.keycodes = make(map[string]*tKeyCode)
 	s.prepareKeys()
 	%s`, term, body))
+}
+
+// decodeDriver runs the REAL input driver (collectEventsFromInput, escape timeout not expired) on the concrete bytes and
+// returns the key events it produced (Seq holds a description when something other than key events came out).
+func decodeDriver(db *TermDB, base *State, tp PtrV, seq string) ([]keyEnt, string) {
+	c := db.Ev.C
+	e := c.Eng
+	st := base.clone()
+	st.Frames = nil
+	bufT := e.PkgBy["bytes"].Types.Scope().Lookup("Buffer").Type()
+	bobj := c.newObject("buf", bufT)
+	bv := c.zeroValue(st, bufT).(*StructV)
+	elem := types.Typ[types.Uint8]
+	av := &ArrayV{Elem: elem}
+	for i := 0; i < len(seq); i++ {
+		av.Elems = append(av.Elems, NumC(big.NewInt(int64(seq[i])), c.byteSort()))
+	}
+	ao := c.newObject("bufbytes", types.NewArray(elem, int64(len(seq))))
+	st.Mem[ao] = av
+	nb := &StructV{Typ: bv.Typ, F: append([]Value(nil), bv.F...)}
+	nb.F[0] = SliceV{Elem: elem, Obj: ao, CLen: len(seq), CCap: len(seq)}
+	st.Mem[bobj] = nb
+	paths, err := db.Ev.Call(st, e.FindFunc(modPath+".(*tScreen).collectEventsFromInput"), []Value{tp, PtrV{Obj: bobj}, False()})
+	if err != nil || len(paths) != 1 {
+		return nil, fmt.Sprintf("error %v paths=%d", err, len(paths))
+	}
+	fs := paths[0].St
+	evs, ok := paths[0].Ret.(SliceV)
+	if !ok || evs.Heap {
+		return nil, "result is not a concrete slice"
+	}
+	var out []keyEnt
+	if evs.Obj == nil {
+		return out, ""
+	}
+	arr := c.mem(fs, evs.Obj).(*ArrayV)
+	for i := 0; i < evs.CLen; i++ {
+		ev, ok := arr.Elems[evs.COff+i].(IfaceV)
+		if !ok {
+			return nil, "event is not an interface value"
+		}
+		pv, ok := ev.Val.(PtrV)
+		if !ok || pv.Obj == nil {
+			return nil, "event is not a pointer"
+		}
+		es, ok := c.mem(fs, pv.Obj).(*StructV)
+		if !ok {
+			return nil, "event is not a struct"
+		}
+		est := under(es.Typ).(*types.Struct)
+		var got keyEnt
+		isKey := false
+		for k := 0; k < est.NumFields(); k++ {
+			switch est.Field(k).Name() {
+			case "key":
+				got.Key = termInt(es.F[k])
+				isKey = true
+			case "mod":
+				got.Mod = termInt(es.F[k])
+			}
+		}
+		if !isKey {
+			return nil, "a non-key event came out"
+		}
+		out = append(out, got)
+	}
+	return out, ""
 }
 
 func xtermBases() []string {
